@@ -1,0 +1,34 @@
+//go:build verif
+
+package cli
+
+// Exports for the verification harness (/verif). Only built with -tags verif.
+
+// VerifLoop wraps the unexported event loop so that the harness can drive it.
+type VerifLoop struct{ lp *loop }
+
+// Flags passed to the redraw callback.
+const (
+	VerifFullRedraw  = uint(fullRedraw)
+	VerifFinalRedraw = uint(finalRedraw)
+)
+
+func VerifNewLoop() *VerifLoop { return &VerifLoop{newLoop()} }
+
+func (l *VerifLoop) HandleCb(cb func(ev any)) { l.lp.HandleCb(func(e event) { cb(e) }) }
+func (l *VerifLoop) RedrawCb(cb func(flag uint)) {
+	l.lp.RedrawCb(func(f redrawFlag) { cb(uint(f)) })
+}
+func (l *VerifLoop) Redraw(full bool)                { l.lp.Redraw(full) }
+func (l *VerifLoop) Input(ev any)                    { l.lp.Input(ev) }
+func (l *VerifLoop) Return(buffer string, err error) { l.lp.Return(buffer, err) }
+func (l *VerifLoop) HasReturned() bool               { return l.lp.HasReturned() }
+func (l *VerifLoop) Run() (string, error)            { return l.lp.Run() }
+
+// Snapshot reads (without consuming) the pending redraw token count, the redrawFull flag and the
+// number of queued input events; used for the lost-wake-up check at quiescence.
+func (l *VerifLoop) Snapshot() (redrawTokens int, redrawFull bool, queuedInputs int, pendingReturn int) {
+	l.lp.redrawMutex.Lock()
+	defer l.lp.redrawMutex.Unlock()
+	return len(l.lp.redrawCh), l.lp.redrawFull, len(l.lp.inputCh), len(l.lp.returnCh)
+}
